@@ -8,7 +8,8 @@ classes), reads each `__set__` / `_validate` / `_validate_static` from the worki
 by resolving them as Python does.  Each `raise` statement becomes `PRaise <id of its template in
 Gen/Templates.v>`; each guard expression is translated operator by operator (isinstance, comparison,
 `in` on a display / on a run-time container, len, float(), %, `is`, truthiness, the compiled-pattern
-match).  `getattr(instance, "_skip_validation" | "_trust_supplied_values", False)` is the constant False of
+match).  `try: <guards> except X: <... raise>` becomes `PCatch X <handler> <guards and what follows>`.
+`getattr(instance, "_skip_validation" | "_trust_supplied_values", False)` is the constant False of
 an instance under ordinary construction and is folded.
 
 Fails closed: a statement or expression outside the fragment becomes `PUnknown`, which no analysis accepts
@@ -366,6 +367,22 @@ class Chain:
                 finally:
                     sc.names = saved
                 return "(PLet %s %s %s\n %s)" % (c, a, b, kk)
+            if isinstance(s, ast.Try) and len(s.handlers) == 1 and not s.orelse and not s.finalbody \
+                    and isinstance(s.handlers[0].type, ast.Name) \
+                    and not (len(s.body) == 1 and s.handlers[0].type.id in EXNS
+                             and ((isinstance(s.body[0], ast.Return) and s.body[0].value is not None and sc.on_return is not None)
+                                  or (isinstance(s.body[0], ast.Assign) and len(s.body[0].targets) == 1
+                                      and isinstance(s.body[0].targets[0], ast.Name)
+                                      and not self._is_method_call(s.body[0].value)))):
+                # try: <block of guards>  except X [as ex]: <statements ending in a raise>  ->  PCatch X <handler> <block; rest>.
+                # Continuation form: the statements after the `try` are inside the guarded program too; no operator of
+                # the guard language raises an exception class other than those of EXNS by itself, and the analysis
+                # (gsafe) accepts a PCatch only when its guarded program raises nothing by itself at all.
+                h = s.handlers[0]
+                x = h.type.id if h.type.id in EXNS else "(OtherExn %s)" % E.pstr(h.type.id)
+                hprog = self.stmts(h.body, sc, nvars, lambda n: "PUnknown")
+                body = self.stmts(list(s.body) + rest, sc, nvars, k)
+                return "(PCatch %s\n %s\n %s)" % (x, hprog, body)
             if isinstance(s, ast.Try) and len(s.handlers) == 1 and not s.orelse and not s.finalbody and len(s.body) == 1 \
                     and isinstance(s.handlers[0].type, ast.Name) and s.handlers[0].type.id in EXNS:
                 # try: <one binding or return>  except X [as ex]: <statements ending in a raise>
